@@ -433,3 +433,20 @@ static inline void run_longnoise(const std::vector<std::string> &w, out &o)
     if (!t.packets.empty()) o.tag("packet");
     if (others.find('O') != std::string::npos) o.tag("overflow");
 }
+
+// ---- calls BEFORE main(): a static object with the earliest user init priority runs one session from its
+// constructor (encoders with both shipped alphabets and a custom one, both receivers) and keeps the result; the
+// op `premain` reports it.  A table or default context that the library initialised dynamically at namespace
+// scope would not be initialised yet at this point.
+#define PREMAIN_LINE "seq 40 16 Ea8b2c541acad/00 N I9 F Aacacadaeaeaf Eacadaea8b2c5 N S9 F V41ac A10207f7f3040 E107f20/41 N I8 F G00acad41 ls7 lf"
+struct premain_runner
+{
+    out o;
+    premain_runner() { run_seq(words(PREMAIN_LINE), o); }
+};
+static premain_runner g_premain __attribute__((init_priority(101)));
+static inline void run_premain(out &o)
+{
+    o = g_premain.o;
+    o.tag("before-main");
+}
